@@ -53,13 +53,13 @@ def call_impl(prog: Program, rep: Report):
     fa = fa_of(prog, fi)
     cfg = fa.cfg
     rep.analysed_add("functions", f"{fi.module.relpath}:{fi.qualname}")
-    rep.rule("G8.collate-once", "every default_collate(<batch>) in _call_impl is reached only where a 'not yet collated' flag "
-             "is known to be False (if-test or assert) and is followed, on every path to the next collator or the return, by "
-             "setting that same flag; all collation sites use one flag - default collation happens at most once whatever the "
-             "order of before / after / None collators")
-    rep.rule("G8.ctx-split-once", "every statement that splits the context off the batch is reached only where a guard flag is "
-             "False and is followed on every path by setting one of its guard flags; any two split sites are mutually "
-             "exclusive over time (each is guarded by a flag the other one sets)")
+    rep.rule("G8.collate-once", "typestate of the collator pipeline: _call_impl's loop body is interpreted over its boolean flags for "
+             "every collate mode (None / 'before' / 'after'), return_ctx setting and reachable flag state; over every sequence of "
+             "collators that the asserts admit, default_collate(batch) runs at most once, a 'before' collator sees a collated "
+             "batch, a None / 'after' collator an uncollated one, and an 'after' collator is followed by the collation")
+    rep.rule("G8.ctx-split-once", "same model: with return_ctx the context is split off the batch exactly once, before the first "
+             "collator runs, by tuple unpacking if the batch is collated at that moment and by zip(*batch) + default_collate(ctx) "
+             "if it is not; without return_ctx it is never split")
     rep.rule("G9.return-shape", "_call_impl returns (batch, ctx) exactly on the paths with return_ctx true and the bare batch "
              "otherwise")
     bvar = fi.params()[0] if fi.is_static else fi.params()[1]
@@ -77,66 +77,7 @@ def call_impl(prog: Program, rep: Report):
                 c.args[0], ast.Name) and c.args[0].id == bvar:
             sites.append((n, c))
     rep.require(sites, "anchor-missing: default_collate(batch) in _call_impl")
-    flags_used = []
-    for n, c in sites:
-        guards = _neg_flags(fa.conds_at(n))
-        setters = {f: {m for m, var, val in fa.stores() if var == f and val is not None
-                       and fa.sym.term(val, m) == ("const", True)} for f in guards}
-        closed = [f for f in guards if _closes(cfg, n, LN, setters[f])]
-        construct = f"collate@{_where(fa, n)}"
-        if not guards:
-            rep.bad("G8.collate-once", fi, construct, "default_collate(batch) is not guarded by a 'not yet collated' flag: "
-                    "a batch that was already collated is collated again", line=c.lineno, clause="C18.1")
-        elif not closed:
-            rep.bad("G8.collate-once", fi, construct, f"after this default_collate(batch) the guard flag "
-                    f"({', '.join(sorted(guards))}) is not set on every path: a later collator with mode 'before' collates "
-                    f"the already collated batch a second time (and a later mode-None collator is not rejected)",
-                    line=c.lineno, clause="C18.1")
-        else:
-            rep.ok("G8.collate-once", fi, construct, f"guarded by not {closed[0]}, which is set afterwards on every path",
-                   line=c.lineno, clause="C18.1")
-            flags_used.append(closed[0])
-    if flags_used:
-        rep.decide(len(set(flags_used)) == 1, "G8.collate-once", fi, "one-flag",
-                   f"all collation sites share the flag '{flags_used[0]}'",
-                   "collation sites use different flags: one site does not see that another one already collated",
-                   clause="C18.1")
-    # ---- ctx splits ----------------------------------------------------------------------------------------------
-    splits = []
-    for n, nd in cfg.nodes.items():
-        if nd.kind == "stmt" and isinstance(nd.ast, ast.Assign) and isinstance(nd.ast.targets[0], ast.Tuple) \
-                and len(nd.ast.targets[0].elts) == 2 and all(isinstance(e, ast.Name) for e in nd.ast.targets[0].elts) \
-                and nd.ast.targets[0].elts[0].id == bvar:
-            if any(isinstance(x, ast.Name) and x.id == bvar for x in ast.walk(nd.ast.value)):
-                splits.append((n, nd.ast.targets[0].elts[1].id))
-    rep.floor("context split sites in _call_impl", len(splits), 1)
-    info = {}
-    for n, cv in splits:
-        guards = _neg_flags(fa.conds_at(n))
-        setters = {f: {m for m, var, val in fa.stores() if var == f and val is not None
-                       and fa.sym.term(val, m) == ("const", True)} for f in guards}
-        closed = {f for f in guards if _closes(cfg, n, LN, setters[f])}
-        info[n] = (guards, closed)
-        under_ctx = any(x == ("param", "return_ctx") for c in fa.conds_at(n) for x in _flat_and(c))
-        rep.decide(bool(closed) and under_ctx, "G8.ctx-split-once", fi, f"split@{_where(fa, n)}",
-                   f"guarded by not {', not '.join(sorted(guards))} under return_ctx; sets {', '.join(sorted(closed))}",
-                   ("the context split is not under return_ctx; " if not under_ctx else "") +
-                   ("no guard flag of this split is set afterwards on every path: the context can be split off twice"
-                    if not closed else ""), line=fa.line(n), clause="C18.1")
-    for a, _ in splits:
-        for b, _ in splits:
-            if a >= b:
-                continue
-            ga, ca = info[a]
-            gb, cb = info[b]
-            excl_ab = bool(ca & gb)  # after a ran, b is blocked
-            excl_ba = bool(cb & ga)
-            rep.decide(excl_ab and excl_ba, "G8.ctx-split-once", fi, f"exclusive:{_where(fa, a)}|{_where(fa, b)}",
-                       "each split is blocked by a flag the other one sets",
-                       f"the split at line {fa.line(b if not excl_ab else a)} is not blocked after the split at line "
-                       f"{fa.line(a if not excl_ab else b)} ran (guards {sorted(gb if not excl_ab else ga)} vs flags set "
-                       f"{sorted(ca if not excl_ab else cb)}): with return_ctx a collator sequence that reaches both takes "
-                       f"a part of the batch for the context", line=fa.line(b), clause="C18.1")
+    _pipeline_model(rep, fa, fi, bvar, LN)
     # ---- return shape ------------------------------------------------------------------------------------------------------
     rets = fa.returns()
     ok = bool(rets)
@@ -150,6 +91,245 @@ def call_impl(prog: Program, rep: Report):
             ok = False
     rep.decide(ok, "G9.return-shape", fi, "returns", "(batch, ctx) iff return_ctx",
                "a return hands back the pair without return_ctx, or the bare batch with it", clause="C18.2")
+
+
+class _Unknown(Exception):
+    pass
+
+
+def _pipeline_model(rep: Report, fa: FA, fi: FuncInfo, bvar: str, LN: int):
+    """Abstract interpretation of the collator loop over (flags, mode, return_ctx) -> events; then a reachability search over the
+    finite state space checks the typestate properties of the rules G8.collate-once / G8.ctx-split-once."""
+    cfg = fa.cfg
+    loop = cfg.nodes[LN].owner
+    cvar = loop.target.id if isinstance(loop.target, ast.Name) else None
+    body_entry = cfg.out_edge(LN, True)
+    exit_edge = cfg.out_edge(LN, False)
+    ps = fi.params()
+    ctx_param = "return_ctx" if "return_ctx" in ps else None
+    if cvar is None or body_entry is None or ctx_param is None:
+        rep.unk("G8.collate-once", fi, "pipeline", "loop over the collators of unrecognised shape", clause="C18.1")
+        return
+    MODES = (None, "before", "after")
+
+    def ev(e, env, mode, rc):
+        """value of a boolean / constant expression; raises _Unknown"""
+        if isinstance(e, ast.Constant):
+            return e.value
+        if isinstance(e, ast.Name):
+            if e.id == ctx_param and e.id not in env:
+                return rc
+            if e.id in env:
+                return env[e.id]
+            raise _Unknown(e.id)
+        if isinstance(e, ast.Attribute) and isinstance(e.value, ast.Name) and e.value.id == cvar and e.attr == "default_collate_mode":
+            return mode
+        if isinstance(e, ast.UnaryOp) and isinstance(e.op, ast.Not):
+            return not ev(e.operand, env, mode, rc)
+        if isinstance(e, ast.BoolOp):
+            vals = None
+            if isinstance(e.op, ast.And):
+                for v in e.values:
+                    r = ev(v, env, mode, rc)
+                    if not r:
+                        return r
+                return r
+            for v in e.values:
+                r = ev(v, env, mode, rc)
+                if r:
+                    return r
+            return r
+        if isinstance(e, ast.IfExp):
+            return ev(e.body if ev(e.test, env, mode, rc) else e.orelse, env, mode, rc)
+        if isinstance(e, ast.Compare) and len(e.ops) == 1:
+            a, b2 = ev(e.left, env, mode, rc), ev(e.comparators[0], env, mode, rc)
+            op = e.ops[0]
+            if isinstance(op, (ast.Eq, ast.Is)):
+                return a == b2 if isinstance(op, ast.Eq) else (a is b2 or (a == b2 and isinstance(a, (str, bool, type(None)))))
+            if isinstance(op, (ast.NotEq, ast.IsNot)):
+                return a != b2
+            if isinstance(op, ast.In):
+                return a in b2
+            if isinstance(op, ast.NotIn):
+                return a not in b2
+        if isinstance(e, (ast.Tuple, ast.List)):
+            return tuple(ev(x, env, mode, rc) for x in e.elts)
+        raise _Unknown(ast.unparse(e)[:40])
+
+    def is_dc(call, arg):
+        return isinstance(call, ast.Call) and ((isinstance(call.func, ast.Name) and call.func.id == "default_collate") or (
+            isinstance(call.func, ast.Attribute) and call.func.attr == "default_collate")) and len(call.args) == 1 and \
+            isinstance(call.args[0], ast.Name) and call.args[0].id == arg
+
+    def events_of(st, cname):
+        """events of one simple statement"""
+        out = []
+        if isinstance(st, ast.Assign) and len(st.targets) == 1:
+            t, v = st.targets[0], st.value
+            if isinstance(t, ast.Name) and t.id == bvar and is_dc(v, bvar):
+                out.append(("DC", st.lineno))
+            elif isinstance(t, ast.Tuple) and len(t.elts) == 2 and all(isinstance(x, ast.Name) for x in t.elts) and (
+                    t.elts[0].id == bvar or any(isinstance(y, ast.Name) and y.id == bvar for y in ast.walk(v))):
+                # (the two parts may first go into temporaries: samples, sample_ctxs = zip(*batch); batch = samples)
+                if isinstance(v, ast.Name) and v.id == bvar:
+                    out.append(("SPLIT_TUPLE", st.lineno, t.elts[1].id))
+                elif isinstance(v, ast.Call) and isinstance(v.func, ast.Name) and v.func.id == "zip" and v.args and \
+                        isinstance(v.args[0], ast.Starred) and isinstance(v.args[0].value, ast.Name) and v.args[0].value.id == bvar:
+                    out.append(("SPLIT_ZIP", st.lineno, t.elts[1].id))
+                else:
+                    out.append(("SPLIT_OTHER", st.lineno, t.elts[1].id))
+            elif isinstance(t, ast.Name) and isinstance(v, ast.Call) and len(v.args) == 1 and isinstance(v.args[0], ast.Name) and \
+                    is_dc(v, v.args[0].id) and v.args[0].id != bvar:
+                out.append(("DC_CTX", st.lineno, v.args[0].id))
+            elif isinstance(v, ast.Call) and isinstance(v.func, ast.Attribute) and v.func.attr == "collate" and \
+                    isinstance(v.func.value, ast.Name) and v.func.value.id == cname:
+                out.append(("COLLATE", st.lineno))
+        elif isinstance(st, ast.Expr) and isinstance(st.value, ast.Call) and isinstance(st.value.func, ast.Attribute) and \
+                st.value.func.attr == "collate":
+            out.append(("COLLATE", st.lineno))
+        return out
+
+    def run_region(start, stop_nodes, env, mode, rc, limit=4000):
+        """all executions from start until a stop node: [(env at stop, events, stop node)]; asserts that fail end the execution
+        (rejected); tests of unknown value branch both ways"""
+        results = []
+        budget = [limit]
+
+        def walk(n, env, evs, seen):
+            budget[0] -= 1
+            if budget[0] < 0:
+                raise _Unknown("too many paths")
+            if n in stop_nodes:
+                results.append((dict(env), list(evs), n))
+                return
+            if n in seen:
+                raise _Unknown("inner loop")
+            if n in (cfg.exit, cfg.raise_exit):
+                return
+            nd = cfg.nodes[n]
+            seen = seen | {n}
+            if nd.kind == "test":
+                try:
+                    val = bool(ev(nd.ast, env, mode, rc))
+                    branches = [val]
+                except _Unknown:
+                    branches = [True] if isinstance(nd.owner, ast.Assert) else [True, False]
+                for lab in branches:
+                    if isinstance(nd.owner, ast.Assert) and lab is False:
+                        continue  # rejected sequence
+                    m = cfg.out_edge(n, lab)
+                    if m is not None:
+                        walk(m, env, evs, seen)
+                return
+            if nd.kind == "stmt":
+                st = nd.ast
+                evs = evs + events_of(st, cvar)
+                if isinstance(st, (ast.Assign, ast.AnnAssign)) and not events_of(st, cvar):
+                    tg = st.targets[0] if isinstance(st, ast.Assign) else st.target
+                    if isinstance(tg, ast.Name) and st.value is not None:
+                        env = dict(env)
+                        try:
+                            env[tg.id] = ev(st.value, env, mode, rc)
+                        except _Unknown:
+                            env.pop(tg.id, None)
+                elif isinstance(st, ast.AugAssign) and isinstance(st.target, ast.Name) and isinstance(st.op, (ast.BitOr, ast.BitAnd)):
+                    env = dict(env)
+                    try:
+                        r = ev(st.value, env, mode, rc)
+                        cur = env[st.target.id]
+                        env[st.target.id] = (cur or r) if isinstance(st.op, ast.BitOr) else (cur and r)
+                    except (_Unknown, KeyError):
+                        env.pop(st.target.id, None)
+                elif isinstance(st, ast.Return):
+                    return
+            for m in cfg.g.successors(n):
+                walk(m, env, evs, seen)
+        walk(start, env, [], frozenset())
+        return results
+
+    problems: List[Tuple[str, str, int]] = []
+    n_states = 0
+    try:
+        for rc in (False, True):
+            inits = run_region(cfg.entry, {LN}, {}, None, rc)
+            seen_states = set()
+            work = []
+            for env0, evs0, _ in inits:
+                flags0 = tuple(sorted((k, v) for k, v in env0.items() if isinstance(v, bool)))
+                work.append((flags0, False, False, ()))  # (flags, ghost collated, ghost split, history of modes)
+            while work:
+                flags, g_coll, g_split, hist = work.pop()
+                key = (flags, g_coll, g_split)
+                if key in seen_states or len(hist) > 6:
+                    continue
+                seen_states.add(key)
+                n_states += 1
+                for mode in MODES:
+                    for env1, evs, stop in run_region(body_entry, {LN}, dict(flags), mode, rc):
+                        gc, gs = g_coll, g_split
+                        collated_at_collate = None
+                        dc_after_collate = False
+                        pending_zip = None
+                        seq = "[" + ", ".join(repr(m_) for m_ in hist + (mode,)) + "]" + (" with return_ctx" if rc else "")
+                        for e in evs:
+                            if e[0] == "DC":
+                                if gc:
+                                    problems.append(("G8.collate-once", f"for the collator sequence {seq} default_collate(batch) (line "
+                                                     f"{e[1]}) runs on a batch that was already collated", e[1]))
+                                gc = True
+                                if collated_at_collate is not None:
+                                    dc_after_collate = True
+                            elif e[0] in ("SPLIT_TUPLE", "SPLIT_ZIP", "SPLIT_OTHER"):
+                                if not rc:
+                                    problems.append(("G8.ctx-split-once", f"the context is split off (line {e[1]}) although return_ctx is "
+                                                     f"false: a part of the batch is taken for the context", e[1]))
+                                if gs:
+                                    problems.append(("G8.ctx-split-once", f"for the collator sequence {seq} the context is split off a "
+                                                     f"second time (line {e[1]}): a part of the batch is taken for the context", e[1]))
+                                if e[0] == "SPLIT_TUPLE" and not gc:
+                                    problems.append(("G8.ctx-split-once", f"for {seq} the context is taken by tuple unpacking (line {e[1]}) "
+                                                     f"from a batch that is still a list of samples", e[1]))
+                                if e[0] == "SPLIT_ZIP":
+                                    if gc:
+                                        problems.append(("G8.ctx-split-once", f"for {seq} the context is taken by zip(*batch) (line {e[1]}) "
+                                                         f"from a batch that is already collated", e[1]))
+                                    pending_zip = e[2]
+                                gs = True
+                            elif e[0] == "DC_CTX":
+                                if pending_zip == e[2]:
+                                    pending_zip = None
+                            elif e[0] == "COLLATE":
+                                collated_at_collate = gc
+                                if rc and not gs:
+                                    problems.append(("G8.ctx-split-once", f"for {seq} the collator runs (line {e[1]}) before the context "
+                                                     f"was split off the batch", e[1]))
+                                if pending_zip is not None:
+                                    problems.append(("G8.ctx-split-once", f"for {seq} the per-sample contexts are handed to the collator "
+                                                     f"without being collated", e[1]))
+                                if mode == "before" and not gc:
+                                    problems.append(("G8.collate-once", f"for {seq} a 'before' collator (line {e[1]}) receives a batch that "
+                                                     f"was not default-collated", e[1]))
+                                if mode in (None, "after") and gc:
+                                    problems.append(("G8.collate-once", f"for {seq} a collator of mode {mode!r} (line {e[1]}) receives a "
+                                                     f"batch that is already collated", e[1]))
+                        if collated_at_collate is None:
+                            problems.append(("G8.collate-once", f"for {seq} the collator's collate is not called", 0))
+                        if mode == "after" and not dc_after_collate:
+                            problems.append(("G8.collate-once", f"for {seq} the 'after' collator is not followed by default_collate(batch)",
+                                             0))
+                        flags1 = tuple(sorted((k, v) for k, v in env1.items() if isinstance(v, bool)))
+                        work.append((flags1, gc, gs, hist + (mode,)))
+    except _Unknown as e:
+        rep.unk("G8.collate-once", fi, "pipeline", f"the collator loop could not be interpreted ({e}): not decided", clause="C18.1")
+        return
+    by_rule = {"G8.collate-once": [], "G8.ctx-split-once": []}
+    for rule, text, line in problems:
+        if text not in [t for t, _ in by_rule[rule]]:
+            by_rule[rule].append((text, line))
+    for rule, items in by_rule.items():
+        items.sort(key=lambda x: len(x[0]))
+        rep.decide(not items, rule, fi, "pipeline", f"holds on all {n_states} reachable (flag state, ghost state) pairs x 3 modes",
+                   "; ".join(t for t, _ in items[:2]), line=items[0][1] if items else fi.node.lineno, clause="C18.1")
 
 
 def _closes(cfg, n: int, LN: int, setters: Set[int]) -> bool:
